@@ -101,6 +101,7 @@ type Sess struct {
 	gfs      map[int]*gfState
 	kept     *keptDump
 	stale    []ecs.CachedFilter // handles of filters that were unregistered
+	replica  map[ecs.Entity]*replicaEnt
 	Res      *ResModel
 	ResIDs   []ecs.ResID
 	ResKeys  []string
